@@ -21,14 +21,19 @@ UNITS = {
     'RangeDimension_ticks_set': dict(file=D, locator=r'void\s+RangeDimension::ticks\s*\((?=\s*const\s+std::vector<double>)', cls='RangeDimensionF',
                                      cls_decl='RangeDimension', cls_file=DH, classes=['RangeDimensionF'], post_rules=[drop_unsorted_caller]),
 }
+UNITS['DataArray_appendSetDimension'] = dict(file=DA, locator=r'SetDimension\s+appendSetDimension\s*\(', cls='DataArray', cls_file=DA, classes=['DataArray', 'SetDimension'], extra_types=['SetDimension'])
+UNITS['DataArray_appendDataFrameDimension_col'] = dict(file=DA, locator=r'DataFrameDimension\s+appendDataFrameDimension\s*\((?=\s*const\s+DataFrame\s*&\s*frame\s*,\s*unsigned\s+column_index)', cls='DataArray', cls_file=DA,
+    classes=['DataArray', 'DataFrameDimension', 'DataFrame'], extra_types=['DataFrameDimension'], calls={'createDataFrameDimension': 'createDataFrameDimension_col'})
+UNITS['DataArray_appendDataFrameDimension_all'] = dict(file=DA, locator=r'DataFrameDimension\s+appendDataFrameDimension\s*\((?=\s*const\s+DataFrame\s*&\s*frame\s*\))', cls='DataArray', cls_file=DA,
+    classes=['DataArray', 'DataFrameDimension', 'DataFrame'], extra_types=['DataFrameDimension'], calls={'createDataFrameDimension': 'createDataFrameDimension_all'})
 UNITS['DataArrayHDF5_createDimensionGroup'] = dict(file='backend/hdf5/DataArrayHDF5.cpp', locator=r'H5Group\s+DataArrayHDF5::createDimensionGroup\s*\(',
     cls='DataArrayHDF5', cls_file='backend/hdf5/DataArrayHDF5.hpp', classes=['DataArrayHDF5', 'opt_H5Group', 'H5Group', 'nstring'],
     member_functors={'dimension_group': 'DataArrayHDF5_dimension_group'}, member_calls={'dimensionCount': 'DataArrayHDF5_dimensionCount'})
 EXTRA = ('bool gh_group_exists; int gh_removed, gh_opened; ndsize_t gh_removed_name, gh_opened_name; bool gh_opened_create;\n''ndsize_t gh_dim_count; int gh_creates; ndsize_t gh_created_index; double gh_created_interval; const double *gh_created_ticks; size_t gh_created_ticks_n;\n'
-         'int gh_offset_sets; double gh_offset_value; int gh_label_sets, gh_unit_sets; int gh_interval_sets; double gh_interval_value; int gh_ticks_sets;\n')
+         'int gh_offset_sets; double gh_offset_value; int gh_label_sets, gh_unit_sets; int gh_interval_sets; double gh_interval_value; int gh_ticks_sets; int gh_labels_sets; unsigned gh_created_column; int gh_created_with_column;\n')
 def job(fn, **kw):
     d = dict(name=fn, bodies=[fn], enforce=[fn], replace=[], extra_c=EXTRA, expect_kinds=['postcondition'], timeout=300); d.update(kw); return d
-JOBS = [job('DataArray_appendSampledDimension'), job('DataArray_appendRangeDimension', replace=['std_is_sorted_n']),
+JOBS = [job('DataArray_appendSetDimension'), job('DataArray_appendDataFrameDimension_col'), job('DataArray_appendDataFrameDimension_all'), job('DataArray_appendSampledDimension'), job('DataArray_appendRangeDimension', replace=['std_is_sorted_n']),
         job('DataArrayHDF5_createDimensionGroup'), job('SampledDimension_samplingInterval_set'), job('RangeDimension_ticks_set', replace=['std_is_sorted_n'])]
 SPEC = dict(contracts=['c13_dims.h'], stubs=[], units=UNITS, jobs=JOBS,
             trusted_base=['CBMC 6.11.0 (C front end, --dfcc, SAT back end)', 'vlib/cxx2c.py idiom map',
